@@ -4,10 +4,13 @@ import (
 	"bytes"
 	"encoding/json"
 	"fmt"
+	"math/big"
 	"runtime"
+	"strings"
 	"sync"
 
 	ocr2keepersv3 "github.com/smartcontractkit/chainlink-automation/pkg/v3"
+	"github.com/smartcontractkit/chainlink-automation/pkg/v3/types"
 	ocr2keepers "github.com/smartcontractkit/chainlink-common/pkg/types/automation"
 )
 
@@ -214,4 +217,230 @@ func c15EncodeStress(kind string, impl *c15Impl) {
 	}
 	wgrp.Wait()
 	c15Decode(kind, refs[0], impl, nil) // the answer on the first message, as in the other modes
+}
+
+// ---------------------------------------------------------------- the same bytes, decoded again
+
+// Every decode must stand on its own: the same bytes decoded a second time give
+// the same answer whatever happened to the first result, and the answer follows
+// the (utg, wg) pair of THAT call.
+
+// c15UtgAlt / c15WgAlt: the second pair.  Condition and log upkeeps swap their
+// types, every work id gets a prefix.  The driver derives the same pair from
+// the tables of the first one (Drv/C15.lean: altUtg, altWg).
+func c15UtgAlt(id ocr2keepers.UpkeepIdentifier) types.UpkeepType {
+	switch t := utg(id); t {
+	case types.ConditionTrigger:
+		return types.LogTrigger
+	case types.LogTrigger:
+		return types.ConditionTrigger
+	default:
+		return t
+	}
+}
+
+func c15WgAlt(id ocr2keepers.UpkeepIdentifier, trig ocr2keepers.Trigger) string {
+	return "alt:" + wg(id, trig)
+}
+
+type c15Answer struct {
+	Panic   string    `json:"panic"`
+	Err     string    `json:"err"`
+	Same    bool      `json:"same,omitempty"` // accepted, and the value equals the one of the first decode (impl.obs / impl.outcome)
+	Obs     *JObs     `json:"obs,omitempty"`
+	Outcome *JOutcome `json:"outcome,omitempty"`
+}
+
+// c15Trash… overwrite everything reachable from a decoded value: through the
+// pointers (extension, big integers), the byte slices and the list elements.
+func c15TrashTrigger(t *ocr2keepers.Trigger) {
+	if t.LogTriggerExtension != nil {
+		*t.LogTriggerExtension = ocr2keepers.LogTriggerExtension{Index: 99, BlockNumber: 0}
+	}
+}
+
+func c15TrashResults(rs []ocr2keepers.CheckResult) {
+	for i := range rs {
+		c15TrashTrigger(&rs[i].Trigger)
+		if rs[i].FastGasWei != nil {
+			rs[i].FastGasWei.SetInt64(-7)
+		}
+		if rs[i].LinkNative != nil {
+			rs[i].LinkNative.Lsh(big.NewInt(1), 300)
+		}
+		for k := range rs[i].PerformData {
+			rs[i].PerformData[k] = 0xAA
+		}
+		rs[i] = ocr2keepers.CheckResult{GasAllocated: 1, WorkID: "trashed"}
+	}
+}
+
+func c15TrashProposals(ps []ocr2keepers.CoordinatedBlockProposal) {
+	for i := range ps {
+		c15TrashTrigger(&ps[i].Trigger)
+		ps[i] = ocr2keepers.CoordinatedBlockProposal{WorkID: "trashed"}
+	}
+}
+
+func c15DecodeObsWith(data []byte, u types.UpkeepTypeGetter, w types.WorkIDGenerator) (a c15Answer, o ocr2keepersv3.AutomationObservation) {
+	defer func() {
+		if r := recover(); r != nil {
+			a = c15Answer{Panic: "recovered: " + c15Short(fmt.Sprint(r)), Err: "panic"}
+		}
+	}()
+	o, err := ocr2keepersv3.DecodeAutomationObservation(append([]byte(nil), data...), u, w)
+	a.Err = c15Classify(err)
+	if err == nil {
+		a.Obs = c15ObsToJ(o)
+	}
+	return a, o
+}
+
+func c15DecodeOutcomeWith(data []byte, u types.UpkeepTypeGetter, w types.WorkIDGenerator) (a c15Answer, o ocr2keepersv3.AutomationOutcome) {
+	defer func() {
+		if r := recover(); r != nil {
+			a = c15Answer{Panic: "recovered: " + c15Short(fmt.Sprint(r)), Err: "panic"}
+		}
+	}()
+	o, err := ocr2keepersv3.DecodeAutomationOutcome(append([]byte(nil), data...), u, w)
+	a.Err = c15Classify(err)
+	if err == nil {
+		a.Outcome = c15OutcomeToJ(o)
+	}
+	return a, o
+}
+
+// c15Repeat decodes data three more times (the first decode has filled impl):
+// a fresh decode whose result is then trashed, a decode under the first pair
+// (Again), one under the second pair (Alt), and one under the first pair after
+// that (Back).  Values equal to the first answer are not repeated on the line.
+func c15Repeat(kind string, data []byte, impl *c15Impl) {
+	if impl.Panic != "" {
+		return
+	}
+	first := ""
+	if impl.Err == "ok" {
+		if kind == "obs" {
+			first = string(must(json.Marshal(impl.Obs)))
+		} else {
+			first = string(must(json.Marshal(impl.Outcome)))
+		}
+	}
+	run := func(u types.UpkeepTypeGetter, w types.WorkIDGenerator, trash bool) *c15Answer {
+		var a c15Answer
+		if kind == "obs" {
+			var o ocr2keepersv3.AutomationObservation
+			a, o = c15DecodeObsWith(data, u, w)
+			if trash && a.Err == "ok" {
+				c15TrashResults(o.Performable)
+				c15TrashProposals(o.UpkeepProposals)
+				for i := range o.BlockHistory {
+					o.BlockHistory[i] = ocr2keepers.BlockKey{Number: 12345}
+				}
+			}
+			if a.Obs != nil && first != "" && string(must(json.Marshal(a.Obs))) == first {
+				a.Same, a.Obs = true, nil
+			}
+		} else {
+			var o ocr2keepersv3.AutomationOutcome
+			a, o = c15DecodeOutcomeWith(data, u, w)
+			if trash && a.Err == "ok" {
+				c15TrashResults(o.AgreedPerformables)
+				for _, round := range o.SurfacedProposals {
+					c15TrashProposals(round)
+				}
+				for i := range o.SurfacedProposals {
+					o.SurfacedProposals[i] = nil
+				}
+			}
+			if a.Outcome != nil && first != "" && string(must(json.Marshal(a.Outcome))) == first {
+				a.Same, a.Outcome = true, nil
+			}
+		}
+		return &a
+	}
+	run(utg, wg, true) // the result a consumer got and wrote into
+	impl.Again = run(utg, wg, false)
+	impl.Alt = run(c15UtgAlt, c15WgAlt, false)
+	impl.Back = run(utg, wg, false)
+	if impl.Alias == "" {
+		for _, a := range []*c15Answer{impl.Again, impl.Back} {
+			if a.Err != impl.Err || (impl.Err == "ok" && !a.Same) {
+				if a.Err == impl.Err {
+					impl.Alias = "decode: the same bytes, decoded again under the same (utg, wg), gave another value (an earlier result had been written to in between)"
+				} else {
+					impl.Alias = fmt.Sprintf("decode: the same bytes, decoded again under the same (utg, wg), were answered %q instead of %q", a.Err, impl.Err)
+				}
+				break
+			}
+		}
+	}
+}
+
+// c15DecodeStress: concurrent Decode calls, observations with long, overlapping
+// block histories and outcomes.  The messages are decoded once sequentially
+// (reference answers, among them one message that must be rejected for a
+// duplicate block number), then eight goroutines decode them over and over and
+// compare.  No clocks, fixed counts.  A fatal runtime error (e.g. concurrent map
+// writes) kills the child process and is reported by the parent.
+func c15DecodeStress(kind string, impl *c15Impl) {
+	const msgs, workers, iters = 8, 8, 250
+	r := NewRng(880088)
+	datas := make([][]byte, 0, msgs)
+	for i := 0; i < msgs; i++ {
+		if kind == "obs" {
+			o, _, _ := c15SmallObs(r, c15Class(r))
+			o.BlockHistory = c15History(r, ocr2keepersv3.ObservationBlockHistoryLimit-r.Intn(3))
+			base := uint64(1_000_000 + 40*i) // overlapping windows of consecutive numbers
+			for k := range o.BlockHistory {
+				o.BlockHistory[k].Number = ocr2keepers.BlockNumber(base - uint64(k))
+			}
+			if i == msgs-1 { // the one that has to be rejected every time
+				o.BlockHistory[len(o.BlockHistory)-1].Number = o.BlockHistory[3].Number
+			}
+			datas = append(datas, must(o.Encode()))
+		} else {
+			o, _, _, _ := c15SmallOutcome(r, c15Class(r))
+			if i == msgs-1 {
+				dup := o.AgreedPerformables[0]
+				o.AgreedPerformables = append(o.AgreedPerformables, dup)
+			}
+			datas = append(datas, must(o.Encode()))
+		}
+	}
+	decode := func(d []byte) string {
+		if kind == "obs" {
+			a, _ := c15DecodeObsWith(d, utg, wg)
+			return a.Panic + "|" + a.Err + "|" + string(must(json.Marshal(a.Obs)))
+		}
+		a, _ := c15DecodeOutcomeWith(d, utg, wg)
+		return a.Panic + "|" + a.Err + "|" + string(must(json.Marshal(a.Outcome)))
+	}
+	refs := make([]string, msgs)
+	for i, d := range datas {
+		refs[i] = decode(d)
+	}
+	impl.Text = string(datas[0])
+	var mu sync.Mutex
+	var wgrp sync.WaitGroup
+	for w := 0; w < workers; w++ {
+		wgrp.Add(1)
+		go func(w int) {
+			defer wgrp.Done()
+			for k := 0; k < iters; k++ {
+				i := (w + k) % msgs
+				if got := decode(datas[i]); got != refs[i] {
+					mu.Lock()
+					if impl.Alias == "" {
+						g, want := strings.SplitN(got, "|", 3), strings.SplitN(refs[i], "|", 3)
+						impl.Alias = fmt.Sprintf("concurrent decode: message %d answered %q (panic %q) instead of %q, or with another value, while other decoders were running", i, g[1], g[0], want[1])
+					}
+					mu.Unlock()
+					return
+				}
+			}
+		}(w)
+	}
+	wgrp.Wait()
+	c15Decode(kind, datas[0], impl, nil)
 }
